@@ -337,6 +337,24 @@ def check_front_ends(ck, tree, types, leaves, g, grads, regime, entry, show):
             ck.ratio("front_end", name, float((contract(Ji, x) - want).abs().max()) if want.numel() else 0.0, tol,
                      "optim.functional.modjac", "jacobian_differs_from_backward", {"program": show, "api": name})
     # pp.func.jacrev (retain_ltype + functorch)
+    if len(xs) >= 2:
+        # argnums in a non-ascending order: the k-th result must be the Jacobian w.r.t. input argnums[k]
+        order = tuple(reversed(range(len(xs))))
+        try:
+            Jp = pp.func.jacrev(f, argnums=order)(*xs)
+            ck.count("front_end", "func.jacrev[argnums reversed]", key=("jacrev-rev", show))
+            for Ji, ai in zip(Jp, order):
+                Ji = Ji.tensor() if isinstance(Ji, pp.LieTensor) else Ji
+                x, gr = xs[ai], grads[ai]
+                want = torch.zeros_like(x.tensor() if isinstance(x, pp.LieTensor) else x).double() if gr is None else gr.double()
+                okshape = tuple(Ji.shape[g.dim():]) == tuple(want.shape)
+                ck.check(okshape, "front_end", "func.jacrev[argnums reversed]", "func.jacrev", "jacobians_not_in_the_order_of_argnums",
+                         {"program": show, "argnums": list(order)})
+                if okshape:
+                    ck.ratio("front_end", "func.jacrev[argnums reversed]", float((contract(Ji, x) - want).abs().max()) if want.numel() else 0.0, tol,
+                             "func.jacrev", "jacobians_not_in_the_order_of_argnums", {"program": show, "argnums": list(order)})
+        except Exception:
+            ck.note_add("front_end_raised/func.jacrev[reversed]", 1)
     try:
         J = pp.func.jacrev(f, argnums=tuple(range(len(xs))))(*xs)
         ck.count("front_end", "func.jacrev", key=("jacrev", show))
@@ -347,6 +365,63 @@ def check_front_ends(ck, tree, types, leaves, g, grads, regime, entry, show):
                      "func.jacrev", "jacobian_differs_from_backward", {"program": show})
     except Exception as e:
         ck.note_add("front_end_raised/func.jacrev", 1)
+
+
+def exact_exp_log(ck, rng, thorough):
+    """Exp and Log alone against the *exact* left Jacobian (longdouble series sum ad^k/(k+1)!, no finite differences):
+    d Exp(x) = Jl(x) dx and d Log(X) = Jl^-1(Log X) dtau in left-perturbation coordinates.  Tolerance
+    (1e-11 + 256 eps/theta^2)(1 + |expected|) - three to five orders tighter than the FD monitor - plus the documented
+    truncation bound for sim3.  A float32 backward of every kind is run first: nothing a float32 call leaves behind
+    (cached thresholds, buffers) may change a later float64 result."""
+    u = 2.0 ** -52
+    for k in progs.GROUPS:
+        a = L.GRP2ALG[k]
+        x32 = pp.LieTensor(torch.randn(2, L.ALG[a]) * 0.3, ltype=lie.LT[a]).requires_grad_(True)
+        x32.Exp().Log().tensor().sum().backward()
+    n = 160 if thorough else 40
+    for k in progs.GROUPS:
+        a = L.GRP2ALG[k]
+        m = L.MANIFOLD[k]
+        for i in range(n):
+            theta = float(10.0 ** rng.uniform(-3, 0.45))
+            axis = rng.standard_normal(3)
+            axis /= np.linalg.norm(axis)
+            tau = rng.standard_normal(3) * float(rng.choice([0.1, 1.0, 3.0]))
+            sig = float(rng.uniform(-0.4, 0.4))
+            if a == "sim3":
+                theta, tau, sig = min(theta, 0.5) * 0.6, tau * 0.1, sig * 0.3
+            xv = np.asarray(L.join_alg(a, L.ld(tau), L.ld(axis * theta), L.LD(sig)), dtype=np.float64)
+            g = torch.as_tensor(rng.standard_normal(m))
+            Jl = np.asarray(L.left_jacobian(a, xv), dtype=np.float64)
+            adn = float(np.linalg.norm(np.asarray(L.ad_matrix(a, xv), dtype=np.float64), 2))
+            tb = trunc_bound([adn]) if a == "sim3" else 0.0
+            base = (1e-11 + 256 * u / theta ** 2)
+            # ---- Exp
+            x = pp.LieTensor(torch.as_tensor(xv).clone(), ltype=lie.LT[a]).requires_grad_(True)
+            X = x.Exp()
+            (X.tensor()[..., :m] * g).sum().backward()
+            want = g.numpy() @ Jl
+            got = x.grad.tensor().numpy() if isinstance(x.grad, pp.LieTensor) else x.grad.numpy()
+            reg = f"{a}.Exp/theta:{'<0.02' if theta < 0.02 else '0.02-0.35' if theta < 0.35 else '>0.35'}"
+            ck.count("exact_jacobian", reg, key=(a, "Exp", i, xv.tobytes()))
+            ck.ratio("exact_jacobian", reg, float(np.abs(got - want).max()), (base + 8 * tb) * (1 + float(np.abs(want).max())) , f"{a}.Exp",
+                     "gradient_differs_from_exact_left_jacobian", lambda: {"x": xv.tolist(), "autograd": got.tolist(), "exact": want.tolist(), "theta": theta})
+            # ---- Log at X = Exp(x)
+            Xl = pp.LieTensor(X.tensor().detach().clone(), ltype=lie.LT[k]).requires_grad_(True)
+            y = Xl.Log()
+            (y.tensor() * g).sum().backward()
+            yv = y.tensor().detach().numpy()
+            Jli = np.linalg.inv(np.asarray(L.left_jacobian(a, yv), dtype=np.float64))
+            want = g.numpy() @ Jli
+            gotX = Xl.grad.tensor().numpy() if isinstance(Xl.grad, pp.LieTensor) else Xl.grad.numpy()
+            tbl = tb * (1 + adn) ** 2 if a == "sim3" else 0.0
+            ck.count("exact_jacobian", reg.replace(".Exp", ".Log"), key=(a, "Log", i, xv.tobytes()))
+            ck.ratio("exact_jacobian", reg.replace(".Exp", ".Log"), float(np.abs(gotX[:m] - want).max()),
+                     (base * float(np.linalg.cond(Jl)) + 8 * tbl) * (1 + float(np.abs(want).max())), f"{k}.Log",
+                     "gradient_differs_from_exact_left_jacobian", lambda: {"X": Xl.tensor().tolist(), "autograd": gotX.tolist(), "exact": want.tolist(), "theta": theta})
+            ck.check(float(gotX[m:].__abs__().max()) == 0.0, "exact_jacobian", reg, f"{k}.Log", "nonzero_last_slot", {"grad": gotX.tolist()})
+            ck.mark("exact/" + reg.split("/")[1])
+    ck.require("exact/theta:<0.02", "exact/theta:0.02-0.35", "exact/theta:>0.35")
 
 
 def lshapes_for(rng, n):
@@ -379,6 +454,8 @@ def run(ck):
     rng = ck.rng("c04")
     thorough = ck.tier == "thorough"
     dt = torch.float64
+    if ck.shard == 0:
+        exact_exp_log(ck, ck.rng("exact-first"), thorough)   # first thing in this process: float32 calls precede every float64 call
     # ---------------- (1) every operator alone, hostile points, all groups
     cases = []
     for k in progs.GROUPS:
@@ -445,6 +522,8 @@ def run(ck):
             if bshapes:
                 ck.mark("alone/broadcast")
             ck.mark(f"alone/{k}/{op}/{mode}/{st}")
+    if ck.shard == 1 % ck.nshards:
+        exact_exp_log(ck, rng, thorough)        # after a float64-first history of this process
     # ---------------- (2) random programs
     nprog = (1400 if thorough else 60)
     made = 0
